@@ -8,6 +8,7 @@
 #include "symrt.h"
 #include <limits>
 #include <memory>
+#include <cmath>
 using namespace bpp;
 using namespace std;
 #ifndef NPAR
@@ -33,6 +34,17 @@ public:
   double getSecondOrderDerivative(const string& v) const override { return __sym_apply2(("d2f_" + v).c_str(), arg(0), arg(1)); }
   double getSecondOrderDerivative(const string& v, const string& w) const override { return __sym_apply2(("d2f_" + v + "_" + w).c_str(), arg(0), arg(1)); }
 };
+// first and second derivative of the map x -> getOriginalValue at the parameter's current coordinate x:
+// symbolic build: derivative of the recorded arithmetic; native replay of a counterexample: fourth-order finite differences (compared with the replay tolerance)
+static void mapDerivs(const TransformedParameter& p0, double x, double& d1, double& d2) {
+#ifdef SYM_REPLAY
+  unique_ptr<TransformedParameter> p(p0.clone()); auto F = [&](double z) { p->setValue(z); return p->getOriginalValue(); };
+  double e = 1e-3 * (1 + fabs(x));
+  d1 = (-F(x + 2 * e) + 8 * F(x + e) - 8 * F(x - e) + F(x - 2 * e)) / (12 * e); d2 = (-F(x + 2 * e) + 16 * F(x + e) - 30 * F(x) + 16 * F(x - e) - F(x - 2 * e)) / (12 * e * e);
+#else
+  double o = p0.getOriginalValue(); d1 = __sym_diff(o, x); d2 = __sym_diff(d1, x);
+#endif
+}
 struct Shape { int kind; double l, u; bool il, iu; };     // kind 0: no constraint; 1..4 finite [a,b] ]a,b[ [a,b[ ]a,b];  5 ]a,inf[ 6 [a,inf[ 7 ]-inf,a[ 8 ]-inf,a]
 static bool inside(const Shape& s, double x) { if (s.kind == 0) return true; bool lo = s.l == -INF ? true : (s.il ? x >= s.l : x > s.l); bool hi = s.u == INF ? true : (s.iu ? x <= s.u : x < s.u); return lo && hi; }
 static Shape anyShape(const string& tag, int lo = 0) {
@@ -82,7 +94,7 @@ extern "C" void verif_harness() {
     else { double l = symd("l"), u = symd("u"), s = symd("scale"); SYM_ASSUME(l < u && s >= 0.1 && s <= 10); p.reset(new IntervalTransformedParameter("x", (l + u) / 2, l, u, s, kind == 2)); }
     SYM_ASSUME(!(x == p->getValue()));      // (a request equal to the current value is ignored by Parameter::setValue: x would not enter the arithmetic)
     p->setValue(x);
-    double o = p->getOriginalValue(), d1 = __sym_diff(o, x), d2 = __sym_diff(d1, x);
+    double d1, d2; mapDerivs(*p, x, d1, d2);
     SYM_ASSERT_EQ(p->getFirstOrderDerivative(), d1, "first derivative of the map differs from the derivative of getOriginalValue");
     SYM_ASSERT_EQ(p->getSecondOrderDerivative(), d2, "second derivative of the map differs from the second derivative of getOriginalValue");
   } else if (which == 2) {
@@ -115,7 +127,7 @@ extern "C" void verif_harness() {
     ReparametrizationDerivableSecondOrderWrapper wr(f, false);
     ParameterList pl; vector<double> x(n); for (int i = 0; i < n; i++) { x[i] = symd(string("x") + NM[i]); SYM_ASSUME(x[i] >= -30 && x[i] <= 30); SYM_ASSUME(!(x[i] == wr.getParameterValue(NM[i])) && !(x[i] == 0)); /* requests equal to the current value, or to the constructor's initial 0, are ignored by Parameter::setValue: x would not enter the arithmetic */ pl.addParameter(Parameter(NM[i], x[i])); }
     wr.setParameters(pl);
-    vector<double> o(n), t1(n), t2(n); for (int i = 0; i < n; i++) { o[i] = dynamic_cast<const TransformedParameter&>(wr.parameter(NM[i])).getOriginalValue(); t1[i] = __sym_diff(o[i], x[i]); t2[i] = __sym_diff(t1[i], x[i]); }
+    vector<double> o(n), t1(n), t2(n); for (int i = 0; i < n; i++) { const TransformedParameter& tp = dynamic_cast<const TransformedParameter&>(wr.parameter(NM[i])); o[i] = tp.getOriginalValue(); mapDerivs(tp, x[i], t1[i], t2[i]); }
     double a0 = o[0], a1 = n > 1 ? o[1] : 0.0;
     for (int i = 0; i < n; i++) { string v = NM[i];
       double g = __sym_apply2(("df_" + v).c_str(), a0, a1), h = __sym_apply2(("d2f_" + v).c_str(), a0, a1);
